@@ -87,10 +87,20 @@ def run_shard(spec, acc):
         for qm in ('queue', 'noqueue'):
             configs.append({'layout': layout, 'queue_mode': qm,
                             'settings': {'required_peer_approvals': 1}})
-    for i in range(nstates):
+    for i in range(-1 if spec['shard'] < 3 else 0, nstates):
         cfg = configs[(spec['shard'] + i * spec['nshards']) % len(configs)]
         op = OPENERS[rng.randrange(len(OPENERS))]
-        if op is gen.OPENERS['backport_pending']:
+        if i < 0:
+            # directed: a pending backport with integration pull requests
+            # (the default of a deployment) - see known_findings.json
+            op = gen.OPENERS['backport_pending']
+            cfg = {'layout': ['d2', 'd3', 's1d2'][spec['shard']],
+                   'queue_mode': ['queue', 'noqueue', 'queue'][spec['shard']],
+                   'settings': {'required_peer_approvals': 1,
+                                'always_create_integration_pull_requests':
+                                True}}
+            acc.count('c10_directed_backport_with_integration_prs')
+        elif op is gen.OPENERS['backport_pending']:
             # the backported PR has to stay pending: approvals required
             cfg = {'layout': rng.choice(['d2', 'd3', 's1d2']),
                    'queue_mode': rng.choice(['queue', 'noqueue']),
@@ -110,7 +120,7 @@ def run_shard(spec, acc):
                 w={'comment': 6, 'delete_comment': 2, 'admin': 0.5}), on_job)
             if op:
                 op(g)
-            g.walk(g.njobs + rng.randrange(0, 8))
+            g.walk(g.njobs + (0 if i < 0 else rng.randrange(0, 8)))
             reeval.explore_state(world, acc, rng,
                                  max_evals=6 if spec['tier'] == 'quick'
                                  else 10)
